@@ -271,6 +271,21 @@ func parseStatus(out string) string {
 // solve races the configured solvers on the query. onlySolvers (may be nil) restricts.
 // wantModel: the query text already contains (get-model) after (check-sat).
 func solve(ctx context.Context, file string, timeoutS int, only []string, all bool) SolverResult {
+	// staged: most obligations are decided by one solver in a fraction of a second; race all of them only
+	// when the first one does not answer quickly
+	if !all && len(only) == 0 && timeoutS > 3 {
+		r := solveRace(ctx, file, 2, []string{"z3-new"}, false)
+		if r.Status == "unsat" || r.Status == "sat" {
+			return r
+		}
+		r2 := solveRace(ctx, file, timeoutS, nil, false)
+		r2.Secs += r.Secs
+		return r2
+	}
+	return solveRace(ctx, file, timeoutS, only, all)
+}
+
+func solveRace(ctx context.Context, file string, timeoutS int, only []string, all bool) SolverResult {
 	type r struct {
 		name, status, out string
 		secs              float64
@@ -366,18 +381,42 @@ func solve(ctx context.Context, file string, timeoutS int, only []string, all bo
 // ---- query ----
 
 type Query struct {
-	Name   string // obligation name
-	Kind   string
-	Func   string
-	Text   string // full SMT-LIB text
-	Descr  string // human readable: what is asserted
-	Pos    string // source position
-	Expect string // "unsat" normally; "sat?" for vacuity checks (must not be unsat)
-	Result SolverResult
-	Only   []string
+	Name    string // obligation name
+	Kind    string
+	Func    string
+	Text    string // full SMT-LIB text
+	Descr   string // human readable: what is asserted
+	Pos     string // source position
+	Expect  string // "unsat" normally; "sat?" for vacuity checks (must not be unsat)
+	Result  SolverResult
+	Only    []string
 	Timeout int
-	obl    *Obligation
+	obl     *Obligation
+	File    string
+	Bytes   int
 }
+
+// spill writes the query text to disk and drops it from memory.
+func (q *Query) spill() {
+	if queryDir == "" || q.Text == "" {
+		return
+	}
+	queryN++
+	q.File = filepath.Join(queryDir, fmt.Sprintf("%05d_%s.smt2", queryN, sanitize(q.Name)))
+	os.WriteFile(q.File, []byte(q.Text), 0o644)
+	q.Bytes = len(q.Text)
+	spilled += int64(q.Bytes)
+	if spilled > 3<<30 {
+		fmt.Fprintln(os.Stderr, "ENGINE-FAULT: more than 3 GiB of queries generated; aborting")
+		os.RemoveAll(queryDir)
+		os.Exit(2)
+	}
+	q.Text = ""
+}
+
+var spilled int64
+
+var queryN int
 
 var queryDir string
 
@@ -390,8 +429,10 @@ func runQueries(qs []*Query, timeoutS int, all bool, par int) {
 		go func(i int, q *Query) {
 			defer wg.Done()
 			defer func() { <-sem }()
-			fn := filepath.Join(queryDir, sanitize(q.Name)+".smt2")
-			os.WriteFile(fn, []byte(q.Text), 0o644)
+			if q.File == "" {
+				q.spill()
+			}
+			fn := q.File
 			t := timeoutS
 			if q.Timeout > 0 {
 				t = q.Timeout
